@@ -318,13 +318,20 @@ struct WriteSpec {
     Bytes dict;
     std::vector<Bytes> chunks;      // uncompressed data chunks (dictionary excluded)
     std::vector<OptElem> opt;
+    bool no_content_size = false;   // zstd only: frames without the content-size field
     bool store_empty = false;       // zstd only: an empty data chunk is stored as the (9-13 byte) zstd frame of no data instead of as nothing
 };
 struct Written { Bytes file; Header h; std::vector<Bytes> stored; };   // stored[0] = dict
 
-static inline Bytes zstd_comp(const Bytes &src, const Bytes *dict, int level) {
+static inline Bytes zstd_comp(const Bytes &src, const Bytes *dict, int level, bool no_content_size = false) {
     Bytes out(ZSTD_compressBound(src.size()));
     ZSTD_CCtx *c = ZSTD_createCCtx(); size_t rv;
+    if (no_content_size) {      // a frame whose header does not say how much it decodes to (what a streaming compressor writes)
+        ZSTD_CCtx_setParameter(c, ZSTD_c_compressionLevel, level); ZSTD_CCtx_setParameter(c, ZSTD_c_contentSizeFlag, 0);
+        bool dict_ok = true; if (dict && !dict->empty() && ZSTD_isError(ZSTD_CCtx_loadDictionary(c, dict->data(), dict->size()))) { dict_ok = false; ZSTD_CCtx_loadDictionary(c, nullptr, 0); }
+        (void)dict_ok; rv = ZSTD_compress2(c, out.data(), out.size(), src.data(), src.size());
+        ZSTD_freeCCtx(c); out.resize(ZSTD_isError(rv) ? 0 : rv); return out;
+    }
     if (dict && !dict->empty()) rv = ZSTD_compress_usingDict(c, out.data(), out.size(), src.data(), src.size(), dict->data(), dict->size(), level);
     else rv = ZSTD_compressCCtx(c, out.data(), out.size(), src.data(), src.size(), level);
     // a "dictionary" that zstd refuses to load (dictionary magic followed by garbage): store the chunk compressed without it
@@ -340,10 +347,10 @@ static inline Written write(const WriteSpec &w, const EmitOpts &o = EmitOpts()) 
     int cds = digest_size(w.chunk_hash_type);
     auto add = [&](const Bytes &plain, bool is_dict) {
         Entry e; Bytes st;
-        if (plain.empty() && w.store_empty && !is_dict && w.comp != COMP_NONE) { st = zstd_comp(plain, &w.dict, w.level); e.digest = digest(w.chunk_hash_type, st); e.udigest = digest(w.chunk_hash_type, plain); }
+        if (plain.empty() && w.store_empty && !is_dict && w.comp != COMP_NONE) { st = zstd_comp(plain, &w.dict, w.level, w.no_content_size); e.digest = digest(w.chunk_hash_type, st); e.udigest = digest(w.chunk_hash_type, plain); }
         else if (plain.empty()) { st.clear(); e.digest.assign(cds, 0); e.udigest.assign(cds, 0); }
         else {
-            st = w.comp == COMP_NONE ? plain : zstd_comp(plain, is_dict ? nullptr : &w.dict, w.level);
+            st = w.comp == COMP_NONE ? plain : zstd_comp(plain, is_dict ? nullptr : &w.dict, w.level, w.no_content_size);
             e.digest = digest(w.chunk_hash_type, st); e.udigest = digest(w.chunk_hash_type, plain);
         }
         e.comp_len = st.size(); e.len = plain.size();
